@@ -30,7 +30,16 @@ type BFSResult struct {
 
 // RunControlled executes f as thread 0 under the default schedule and returns the execution.
 func RunControlled(cfg Config, f func()) *Exec {
-	return Run(cfg, func(n int, cost bool, label string) int { return 0 }, f)
+	x := Run(cfg, func(n int, cost bool, label string) int { return 0 }, f)
+	for attempt := 0; x.EnginePanic != "" && attempt < 3; attempt++ {
+		EngineRetries++
+		x = Run(cfg, func(n int, cost bool, label string) int { return 0 }, f)
+	}
+	if x.EnginePanic != "" {
+		// persisted over four runs: stop the harness (check reports an engine error, never a verdict)
+		panic("vrt: engine assertion persisted: " + x.EnginePanic)
+	}
+	return x
 }
 
 // BFS explores all histories up to MaxDepth, merging states with equal keys.
